@@ -26,3 +26,15 @@ func run(t *testing.T, part string, n int, pick []int) {
 
 func TestVerif_Battery(t *testing.T)    { run(t, "battery", vkit.N(2000, 100000), nil) }
 func TestVerif_BatteryLPM(t *testing.T) { run(t, "battery-lpm", vkit.N(800, 40000), []int{1, 3}) }
+
+// Wide fan-out: ids under one prefix grow past and shrink below every radix node size (4/5, 16/17, 48/49) with the prefix key itself present.
+func TestVerif_BatteryWide(t *testing.T) {
+	r := vkit.Start(t, "C04", "battery-wide", "exploration", rule)
+	r.Require("query_checks", "commits")
+	r.ParallelCases(vkit.N(500, 25000), vkit.Workers(), func(i int) {
+		dbsim.RunPlain(r, i, dbsim.Opts{Tables: 1, Txns: 45, MaxOps: 24, ProbesPerIndex: 3, AbortPct: 10, SchemaPick: []int{4},
+			Report: map[string]bool{"query": true, "abort": true}},
+			func(s *dbsim.Sim) bool { return s.QueryChecks() >= 20 && s.Commits() > 0 })
+	})
+	r.Finish()
+}
